@@ -966,10 +966,24 @@ fn oracle_c16(fields: &[&str]) -> String {
             return format!("oracle FAIL normalize not idempotent on {:?}: {:?} then {:?}", t, once, twice);
         }
     }
-    // identical step lists
+    // identical step lists: the same steps in the same order; within a step the words are the same
+    // in the same order except for where the modifiers sit (the text of a step keeps the modifiers
+    // where they were written; which step it is does not depend on that)
+    fn modifiers_last(steps: &[String]) -> Vec<String> {
+        steps
+            .iter()
+            .map(|s| {
+                let (m, mut rest): (Vec<&str>, Vec<&str>) = s.split(' ').partition(|w| ["inv", "omit_fwd", "omit_inv"].contains(w));
+                let mut m = m;
+                m.sort();
+                rest.extend(m);
+                rest.join(" ")
+            })
+            .collect()
+    }
     let sc = canon.split_into_steps();
     let sn = noisy.split_into_steps();
-    if sc != sn {
+    if modifiers_last(&sc) != modifiers_last(&sn) {
         return format!("oracle FAIL step lists differ: {:?} vs {:?} (from {:?})", sc, sn, noisy);
     }
     // steps of a step list are fixed points
@@ -990,7 +1004,7 @@ fn oracle_c16(fields: &[&str]) -> String {
                 "oracle pass".to_string()
             }
             (Ok(oa), Ok(ob)) => {
-                if ctx.steps(oa).ok() != ctx.steps(ob).ok() {
+                if ctx.steps(oa).ok().map(|v| modifiers_last(v)) != ctx.steps(ob).ok().map(|v| modifiers_last(v)) {
                     return "oracle FAIL ctx.steps differ".to_string();
                 }
                 for dir in [Fwd, Inv] {
